@@ -17,8 +17,9 @@ VARIABLES vL,      \* next event
           vZone,   \* current vZone of the session (UtcZone initially and after a refused construction)
           vBuf,    \* the client's search buffer (8 slots), persists from call to call
           vBad,    \* {<<index, tag>>}: disagreements
-          vInfo    \* {<<index, tag>>}: spec-computed facts about zones (used to recognise known findings)
-vars == <<vL, vZone, vBuf, vBad, vInfo>>
+          vInfo,   \* {<<index, tag>>}: spec-computed facts about zones (used to recognise known findings)
+          vRefOK   \* FALSE after a TZ value that the library refused: reference observations for it have nothing to be compared with
+vars == <<vL, vZone, vBuf, vBad, vInfo, vRefOK>>
 
 Has(r, k) == k \in DOMAIN r
 EmptyBuf == [i \in 1..8 |-> <<>>]
@@ -170,7 +171,8 @@ VRef(e) ==
             THEN (IF NTr(vZone) > 0 /\ ~CLe(LastT(vZone), tt) THEN [types |-> {TableTypeAtLeap(vZone, tt)}, err |-> {}] ELSE TypeAt(vZone, u))
             ELSE TypeAt(vZone, tt)
       obs == e.r.ok
-  IN IF ta.types = {} THEN {}                        \* the library reports no type there (C03): nothing to compare
+  IN IF ~vRefOK THEN {}                              \* the library refused this TZ value: outside the comparison
+     ELSE IF ta.types = {} THEN {}                   \* the library reports no type there (C03): nothing to compare
      ELSE IF \E ty \in ta.types : ty.off = obs.off /\ ty.des = obs.des /\ (obs.dst = -1 \/ obs.dst = ty.dst) THEN {}
      ELSE {"C10-reference-disagrees-with-spec"}
 \* the set of instants a reference implies for a local time = the preimage of the zone's clock
@@ -178,7 +180,7 @@ VRefMk(e) ==
   LET a == e.a L == UnixOf(a.y, a.mo, a.d, a.h, a.mi, a.s)
       mine == {CDSToW(p[1]) : p \in ValidInstants(vZone, L)}
       theirs == {e.r.ok.set[i] : i \in 1..Len(e.r.ok.set)}
-  IN IF \E u \in Candidates(vZone, L) : ~ClockAt(vZone, u)[1] THEN {}     \* beyond an expired table: out of domain
+  IN IF ~vRefOK \/ \E u \in Candidates(vZone, L) : ~ClockAt(vZone, u)[1] THEN {}     \* refused value / beyond an expired table: out of domain
      ELSE IF mine = theirs THEN {} ELSE {"C10-reference-mktime-disagrees-with-spec"}
 
 \* ---- C15: static footprint facts (one event per occurrence found by the source scan) ----
@@ -234,7 +236,7 @@ Verdict(e) ==
 
 \* C15: an event replayed on several threads sharing the same values must have given every thread the sequential result
 ThreadTags(e) == IF Has(e, "tmis") /\ e.tmis > 0 THEN {"C15-thread-result-differs"} ELSE {}
-Init == vL = 1 /\ vZone = UtcZone /\ vBuf = EmptyBuf /\ vBad = {} /\ vInfo = {}
+Init == vL = 1 /\ vZone = UtcZone /\ vBuf = EmptyBuf /\ vBad = {} /\ vInfo = {} /\ vRefOK = TRUE
 Step(e) ==
   IF e.op = "zone" THEN
      LET z == MkZone(e.a) tags == VZone(e, z) accepted == Has(e.r, "ok") IN
@@ -262,7 +264,9 @@ Step(e) ==
      /\ vZone' = vZone
      /\ vInfo' = vInfo
      /\ vBuf' = IF e.op = "findn" /\ Has(e.r, "buf") THEN e.r.buf ELSE vBuf
-Next == vL <= NRec /\ Step(Rec[vL]) /\ vL' = vL + 1
+Next == /\ vL <= NRec /\ Step(Rec[vL]) /\ vL' = vL + 1
+        /\ vRefOK' = IF Rec[vL].op = "resolve" THEN Has(Rec[vL].r, "ok")
+                     ELSE IF Rec[vL].op \in {"zone", "tzif", "fixedzone"} THEN TRUE ELSE vRefOK
 Spec == Init /\ [][Next]_vars
 Report == (vL = NRec + 1) => PrintT(<<"DONE", NRec, ToJson(<<vBad, vInfo>>)>>)
 =============================================================================
